@@ -368,6 +368,21 @@ class Program:
     def __init__(self, ss: SourceSet):
         self.ss = ss
         self.modules: Dict[str, Module] = {}
+        # method names defined in more than one class of the package: a call `self._m(...)` may dispatch to an override,
+        # so the front end must not expand it (sa/inline.py)
+        from . import inline as _inline
+        seen_names: Dict[str, int] = {}
+        for path in ss.python_files():
+            try:
+                t_ = ast.parse(ss.files[path], filename=path)
+            except SyntaxError:
+                continue
+            for c_ in ast.walk(t_):
+                if isinstance(c_, ast.ClassDef):
+                    for m_ in c_.body:
+                        if isinstance(m_, (ast.FunctionDef, ast.AsyncFunctionDef)):
+                            seen_names[m_.name] = seen_names.get(m_.name, 0) + 1
+        _inline.POLYMORPHIC = {n_ for n_, k_ in seen_names.items() if k_ > 1}
         for path in ss.python_files():
             name = path[:-3].replace(os.sep, '.')
             if name.endswith('.__init__'):
